@@ -42,9 +42,25 @@ type Step struct {
 }
 
 type SchedResult struct {
-	Trace  []Step
-	Races  map[string]string // variable -> description of two conflicting accesses by different threads
-	Result []string
+	Trace    []Step
+	Races    map[string]string // variable -> description of two conflicting accesses by different threads
+	Result   []string
+	Deadlock string // non-empty: no thread was enabled although some were still running
+}
+
+// splitSync parses "sync:<object>.<Method>" / "sync-ret:<object>.<Method>" access ids (emitted around calls of methods
+// of sync objects that are rooted at package-level variables).
+func splitSync(id string) (kind, obj, method string) {
+	for _, k := range []string{"sync-ret:", "sync:"} {
+		if strings.HasPrefix(id, k) {
+			rest := id[len(k):]
+			if i := strings.LastIndexByte(rest, '.'); i > 0 {
+				return k[:len(k)-1], rest[:i], rest[i+1:]
+			}
+			return k[:len(k)-1], rest, ""
+		}
+	}
+	return "", "", ""
 }
 
 func goid() int64 {
@@ -104,10 +120,80 @@ func RunSched(bodies []func() string, choices []int, snap func() string) *SchedR
 	count := make([]int, n)
 	rh := make([]uint64, n)
 	type acc struct {
-		tid int
-		w   bool
+		tid   int
+		w     bool
+		locks map[string]bool
 	}
 	seen := map[string][]acc{}
+	// model of the sync objects the threads use through package-level variables: a Lock is enabled only while the mutex is
+	// free (so the real Lock never blocks under the scheduler), locksets feed the race rule, Once.Do excludes other callers
+	owner := map[string]int{}           // mutex -> writer tid
+	readers := map[string]map[int]int{} // rwmutex -> tid -> count
+	inDo := map[string]int{}            // once -> tid currently inside Do
+	onceDone := map[string]bool{}
+	lockset := make([]map[string]bool, n)
+	for i := range lockset {
+		lockset[i] = map[string]bool{}
+	}
+	enabled := func(r req) bool {
+		kind, obj, m := splitSync(r.id)
+		if kind != "sync" {
+			return true
+		}
+		switch m {
+		case "Lock":
+			if o, ok := owner[obj]; ok && o != r.tid {
+				return false
+			}
+			for t, c := range readers[obj] {
+				if t != r.tid && c > 0 {
+					return false
+				}
+			}
+		case "RLock":
+			if o, ok := owner[obj]; ok && o != r.tid {
+				return false
+			}
+		case "Do":
+			if t, ok := inDo[obj]; ok && t != r.tid {
+				return false
+			}
+		}
+		return true
+	}
+	granted := func(r req) {
+		kind, obj, m := splitSync(r.id)
+		switch {
+		case kind == "sync" && (m == "Lock" || m == "TryLock"):
+			if _, ok := owner[obj]; !ok {
+				owner[obj] = r.tid
+				lockset[r.tid][obj] = true
+			}
+		case kind == "sync" && m == "Unlock":
+			delete(owner, obj)
+			delete(lockset[r.tid], obj)
+		case kind == "sync" && m == "RLock":
+			if readers[obj] == nil {
+				readers[obj] = map[int]int{}
+			}
+			readers[obj][r.tid]++
+			lockset[r.tid][obj] = true
+		case kind == "sync" && m == "RUnlock":
+			if readers[obj][r.tid]--; readers[obj][r.tid] <= 0 {
+				delete(readers[obj], r.tid)
+				delete(lockset[r.tid], obj)
+			}
+		case kind == "sync" && m == "Do":
+			if !onceDone[obj] {
+				inDo[obj] = r.tid
+			}
+		case kind == "sync-ret" && m == "Do":
+			if inDo[obj] == r.tid {
+				delete(inDo, obj)
+				onceDone[obj] = true
+			}
+		}
+	}
 	last := -1
 	waitFor := n
 	for live > 0 {
@@ -125,8 +211,14 @@ func RunSched(bodies []func() string, choices []int, snap func() string) *SchedR
 			break
 		}
 		var en []int
-		for t := range pending {
-			en = append(en, t)
+		for t, r := range pending {
+			if enabled(r) {
+				en = append(en, t)
+			}
+		}
+		if len(en) == 0 {
+			res.Deadlock = fmt.Sprintf("no thread is enabled: %d thread(s) wait for a lock or a sync.Once held by a thread that is itself blocked (mutex owners %v)", len(pending), owner)
+			break
 		}
 		sort.Ints(en)
 		for i, t := range en {
@@ -136,7 +228,7 @@ func RunSched(bodies []func() string, choices []int, snap func() string) *SchedR
 			}
 		}
 		g := snap()
-		key := fmt.Sprint(count, rh, g)
+		key := fmt.Sprint(count, rh, g, owner, inDo)
 		ci := 0
 		if len(res.Trace) < len(choices) {
 			ci = choices[len(res.Trace)]
@@ -148,13 +240,26 @@ func RunSched(bodies []func() string, choices []int, snap func() string) *SchedR
 		r := pending[t]
 		delete(pending, t)
 		res.Trace = append(res.Trace, Step{Key: key, Enabled: append([]int(nil), en...), Chosen: t, Var: r.id, W: r.w == 1})
-		if r.id != "<start>" && !strings.HasPrefix(r.id, "sync:") {
+		granted(r)
+		if r.id != "<start>" && !strings.HasPrefix(r.id, "sync:") && !strings.HasPrefix(r.id, "sync-ret:") {
+			common := func(a map[string]bool) bool {
+				for k := range a {
+					if lockset[t][k] {
+						return true
+					}
+				}
+				return false
+			}
 			for _, a := range seen[r.id] {
-				if a.tid != t && (a.w || r.w == 1) {
-					res.Races[r.id] = fmt.Sprintf("thread %d (write=%v) and thread %d (write=%v) both access %s and the library has no synchronisation", a.tid, a.w, t, r.w == 1, r.id)
+				if a.tid != t && (a.w || r.w == 1) && !common(a.locks) {
+					res.Races[r.id] = fmt.Sprintf("thread %d (write=%v) and thread %d (write=%v) both access %s with no common lock held", a.tid, a.w, t, r.w == 1, r.id)
 				}
 			}
-			seen[r.id] = append(seen[r.id], acc{t, r.w == 1})
+			ls := map[string]bool{}
+			for k := range lockset[t] {
+				ls[k] = true
+			}
+			seen[r.id] = append(seen[r.id], acc{t, r.w == 1, ls})
 		}
 		count[t]++
 		h := fnv.New64a()
